@@ -149,13 +149,15 @@ def rlnStep (st : St) (w : List String) : St × String :=
   let spec := pe.spec
   let fwd (ws : List String) : St × String := treeStep st ws
   match w with
-  | ["new"] =>
+  | ["new"] | ["new_params"] =>      -- `RLN::new` and `RLN::new_with_params` on the repository's own key file and graph: the same object
     match TreeDriver.newInst { H := st.env.H2, spec := spec } "pm" 20 with
     | some inst => ({ st with inst := some { inst := inst }, rootCache := none }, "ok")
     | none => (st, "bad-op")
   -- the same call with a reader that fails after delivering its bytes / an output that takes nothing: `read_to_end` or
   -- `write_all` returns the error before any state is touched (proving, reading and key generation have no state)
   | "io" :: _ => (st, "err")
+  -- how many bytes the caller's readers deliver per `read()` call is not part of any result
+  | ["chunk", _] => (st, "ok")
   | ["set_leaf", i, v] => fwd ["set", i, v]
   | ["set_next", v] => fwd ["app", v]
   | ["delete", i] => fwd ["del", i]
@@ -165,7 +167,11 @@ def rlnStep (st : St) (w : List String) : St × String :=
   | ["set_leaves_from", i, vs] => fwd ["batch", i, vs, "-"]
   | ["init_leaves", vs] =>
     match TreeDriver.newInst { H := st.env.H2, spec := spec } "pm" 20 with
-    | some inst => treeStep { st with inst := some { inst := inst }, rootCache := none } ["batch", "0x0", vs, "-"]
+    | some inst =>
+      -- the leaves are written into a NEW tree, which replaces the current one only when that succeeded (repaired code;
+      -- the pinned code reset the tree first and kept it empty when the write was then rejected)
+      let (st', r) := treeStep { st with inst := some { inst := inst }, rootCache := none } ["batch", "0x0", vs, "-"]
+      if r == "ok" then (st', r) else (st, r)
     | none => (st, "bad-op")
   | ["atomic", i, vs, idx] => fwd ["batch", i, vs, idx]
   | ["empty"] => match rlnView st with
